@@ -36,6 +36,11 @@
                                      i.e. position by position the get_mut result;
                                      no panic; container and log untouched
        C13_disjoint_unchecked_lawful the same for get_disjoint_unchecked_mut
+       C13_disjoint_agrees_with_get_mut  literally: running get_disjoint_mut ks
+                                     and, for each position j, get_mut (ks[j]) from
+                                     the same state, the j-th result of the former
+                                     IS the result of the latter; both leave
+                                     container and log untouched
    * "the mutable references it returns never alias one another":
        C13_disjoint_safe             for ANY environment (== may lie or panic),
        C13_disjoint_unchecked_safe   any ks: no UB; one result per request; every
@@ -57,8 +62,10 @@
    * C13_disjoint_lawful assumes Uniq ck (elems (self w)).  That reachable maps
      satisfy it under a lawful environment is part of C01/C05 (Dict), not
      restated here.
-   * The agreement with get_mut is through the common value find_idx ...; there
-     is no theorem that literally runs both in one statement.
+   * CLOSED: the agreement with get_mut used to be only through the common value
+     find_idx ...; C13_disjoint_agrees_with_get_mut now runs both in one
+     statement (for get_disjoint_mut; the unchecked variant agrees through
+     C13_disjoint_unchecked_lawful + C13_get_mut_lawful only).
    * References are slot indices; that a Rust `&mut V` into slot i and one into
      slot j <> i do not overlap is the array layout (correspondence / Miri).
    * With an unlawful == (C17) only the no-alias/no-UB statement
@@ -66,7 +73,7 @@
    ======================================================================== *)
 Require Import Model.Base Model.Slots Model.MapOps Model.Exec.
 Require Import Proofs.Hoare Proofs.Inv Proofs.Safety2 Proofs.Spec Proofs.Lawful Proofs.Disjoint
-               Proofs.FmtSerde Proofs.Legacy.
+               Proofs.FmtSerde Proofs.Legacy Proofs.Gaps.
 
 Theorem C13_disjoint_lawful :
   forall (K V Q T : Type) (E : env K V Q T) (ck : K -> N) (cq : Q -> N) (HL : Lawful E ck cq)
@@ -155,6 +162,31 @@ Theorem C13_get_mut_lawful :
        (fun _ : world K V T => False) w.
 Proof. exact (fun K V Q T E ck cq HL => get_mut_lawful E ck cq HL). Qed.
 Print Assumptions C13_get_mut_lawful.
+
+(* ---------------------------------------------------------------------- *)
+(* the agreement with get_mut as ONE statement (Proofs/Gaps.v): both calls are *)
+(* run from the same world w; get_disjoint_mut returns one result per request *)
+(* and, at every position j holding key q, get_mut q returns that very result *)
+(* (nth_error r j is Some x for every j < length ks = length r; the `None`     *)
+(* branch of the inner match is unreachable there)                            *)
+(* ---------------------------------------------------------------------- *)
+Theorem C13_disjoint_agrees_with_get_mut :
+  forall (K V Q T : Type) (E : env K V Q T) (ck : K -> N) (cq : Q -> N) (HL : Lawful E ck cq)
+         (ks : list Q) (w : world K V T),
+    WF (self w) ->
+    Uniq ck (Spec.elems (self w)) ->
+    NoDup (List.map cq ks) ->
+    exists (r : list (option nat)) (wd : world K V T),
+      get_disjoint_mut E ks w = Ok r wd /\
+      stable w wd /\
+      length r = length ks /\
+      forall (j : nat) (q : Q),
+        nth_error ks j = Some q ->
+        exists wj : world K V T,
+          get_mut E q w = Ok (match nth_error r j with Some x => x | None => None end) wj /\
+          stable w wj.
+Proof. exact (fun K V Q T E ck cq HL => disjoint_agrees_with_get_mut E ck cq HL). Qed.
+Print Assumptions C13_disjoint_agrees_with_get_mut.
 
 (* ---------------------------------------------------------------------- *)
 (* non-vacuity                                                              *)
